@@ -445,12 +445,17 @@ _WT = 2
 def _wreplay(edge_ids):
     g = _WG
     res = []
-    for ei in edge_ids:
+    for item in edge_ids:
+        pre = []
+        if isinstance(item, tuple):     # (self-loop edge, following edge)
+            pre, ei = [g.edges[item[0]]], item[1]
+        else:
+            ei = item
         e = g.edges[ei]
         impl = WaiterImpl(_WT)
         try:
             hist = []
-            for pe_ in g.path_to(e["_s"]):
+            for pe_ in g.path_to(e["_s"]) + pre:
                 impl.step(pe_["act"])
                 hist.append(pe_["act"])
             got = impl.step(e["act"])
@@ -473,7 +478,7 @@ def _waiters(chk: Check, n, depth, label):
     chk.cov["tlc_runs"][-1]["invariants"] = WINV
     g = common.Graph(recs)
     _WG, _WT = g, 2
-    ids = g.reachable_edges()
+    ids = g.reachable_edges() + g.selfloop_pairs()
     results = common.parallel_map(_wreplay, common.chunked(ids, common.NCPU * 4))
     chk.count(len(ids))
     chk.cov["traces_validated_against_impl"] += len(ids)
